@@ -568,6 +568,18 @@ class Algebra(object):
                     dq.append(t)
         return None
 
+    def complement_marked(self, X, marks):
+        """complement w.r.t. all words over chars and the given marks"""
+        syms = list(self.chars) + list(marks)
+
+        def succ(s):
+            for c in syms:
+                if s is None:
+                    yield c, None
+                else:
+                    yield c, X.delta[s].get(c)
+        return build([X.start], succ, lambda s: s is None or s not in X.finals)
+
     def complement_chars(self, X):
         """complement w.r.t. all strings over chars (X must be mark-free)"""
         def succ(s):
